@@ -89,6 +89,11 @@ pub struct Workload {
     /// search directories that are reached through a symlinked directory and `..`
     #[serde(default)]
     pub symlinked: Vec<u8>,
+    /// include files (by index) that also exist, with other contents, in an overlay directory
+    /// served by a caller-supplied CompilerOpts (only used with entry 0, where listing and
+    /// compile are both given that CompilerOpts)
+    #[serde(default)]
+    pub overlay: Vec<usize>,
 }
 
 /// where the files of search directory `d` really live
@@ -253,6 +258,12 @@ pub fn setup_dir(w: &Workload) {
         for (d, k) in dt.copies.iter() {
             let p = format!("{}/{}", real_dir(w, *d), dt.name);
             place(&p, *k, &data_content(dt.kind, *d));
+        }
+    }
+    for i in w.overlay.iter() {
+        if let Some(inc) = w.incs.get(*i) {
+            let p = format!("{}/{}", OVERLAY, inc.name);
+            place(&p, REAL, render_inc(w, *i, 77).as_bytes());
         }
     }
     fs::write(MAIN, render_main(w)).unwrap();
@@ -437,8 +448,58 @@ pub fn generate(rng: &mut Rng, thorough: bool) -> Workload {
         } else {
             vec![]
         },
+        overlay: if ninc > 0 && rng.chance(1, 4) {
+            vec![rng.below(ninc as u64) as usize]
+        } else {
+            vec![]
+        },
     }
 }
+
+// ---------------------------------------------------------------------------------------
+// a caller-supplied resolver: files present in an overlay directory win over the search path
+// (what a language server with unsaved buffers or a build sandbox does)
+// ---------------------------------------------------------------------------------------
+
+#[derive(Clone)]
+struct OverlayOpts {
+    opts: Rc<dyn chialisp::compiler::comptypes::CompilerOpts>,
+    overlay: String,
+}
+
+impl chialisp::compiler::comptypes::HasCompilerOptsDelegation for OverlayOpts {
+    fn compiler_opts(&self) -> Rc<dyn chialisp::compiler::comptypes::CompilerOpts> {
+        self.opts.clone()
+    }
+    fn update_compiler_opts<
+        F: FnOnce(
+            Rc<dyn chialisp::compiler::comptypes::CompilerOpts>,
+        ) -> Rc<dyn chialisp::compiler::comptypes::CompilerOpts>,
+    >(
+        &self,
+        f: F,
+    ) -> Rc<dyn chialisp::compiler::comptypes::CompilerOpts> {
+        Rc::new(OverlayOpts {
+            opts: f(self.opts.clone()),
+            overlay: self.overlay.clone(),
+        })
+    }
+    fn override_read_new_file(
+        &self,
+        inc_from: String,
+        filename: String,
+    ) -> Result<(String, Vec<u8>), chialisp::compiler::comptypes::CompileErr> {
+        if !filename.starts_with('*') {
+            let p = format!("{}/{}", self.overlay, filename);
+            if let Ok(content) = fs::read(&p) {
+                return Ok((p, content));
+            }
+        }
+        self.opts.read_new_file(inc_from, filename)
+    }
+}
+
+pub const OVERLAY: &str = "r/ov";
 
 // ---------------------------------------------------------------------------------------
 // actor
@@ -496,6 +557,14 @@ fn actor_body(w: Workload) -> Box<dyn FnOnce(&Actor) + Send + 'static> {
             let listing = {
                 let opts: Rc<dyn CompilerOpts> = Rc::new(DefaultCompilerOpts::new(MAIN));
                 let opts = opts.set_search_paths(&search);
+                let opts: Rc<dyn CompilerOpts> = if w.entry == 0 && !w.overlay.is_empty() {
+                    Rc::new(OverlayOpts {
+                        opts,
+                        overlay: OVERLAY.to_string(),
+                    })
+                } else {
+                    opts
+                };
                 gather_dependencies(opts, MAIN, &text)
             };
             let _g = seam::HarnessGuard::new();
@@ -521,6 +590,14 @@ fn actor_body(w: Workload) -> Box<dyn FnOnce(&Actor) + Send + 'static> {
                 let mut allocator = clvmr::allocator::Allocator::new();
                 let opts: Rc<dyn CompilerOpts> = Rc::new(DefaultCompilerOpts::new(MAIN));
                 let opts = opts.set_search_paths(&search);
+                let opts: Rc<dyn CompilerOpts> = if e == 0 && !w.overlay.is_empty() {
+                    Rc::new(OverlayOpts {
+                        opts,
+                        overlay: OVERLAY.to_string(),
+                    })
+                } else {
+                    opts
+                };
                 let mut syms = HashMap::new();
                 clvmc::compile_clvm_text(&mut allocator, opts, &mut syms, &text, MAIN, e == 0)
                     .is_ok()
@@ -858,6 +935,12 @@ fn drop_inc(w: &Workload, i: usize) -> Workload {
             *j -= 1;
         }
     }
+    c.overlay.retain(|j| *j != i);
+    for j in c.overlay.iter_mut() {
+        if *j > i {
+            *j -= 1;
+        }
+    }
     c.hidden.retain(|(_, j)| *j != i);
     for (_, j) in c.hidden.iter_mut() {
         if *j > i {
@@ -979,6 +1062,11 @@ impl Prop for C18 {
         if !w.symlinked.is_empty() {
             let mut c = w.clone();
             c.symlinked.clear();
+            out.push(c);
+        }
+        if !w.overlay.is_empty() {
+            let mut c = w.clone();
+            c.overlay.clear();
             out.push(c);
         }
         if w.entry != 0 {
